@@ -49,8 +49,14 @@ claim("C06", SIM + "; oracle: twin-run behavioural equality (same continuation w
       "trusted: harness; the rejection criterion is the statement's own (no plaintext, nothing to send but an optional OTR error); a well-formed message from another valid peer instance that binds an unbound conversation is not a rejection case (C15)",
       "DESIGN.md section 5 C06")
 
+claim("C09", SIM + "; oracle: omniscient key history of the shadow reference: owner pair and acceptance window of every disclosed key; completeness after flush",
+      "In PRNG-generated interleavings (ping-pong, bursts, one-directional streams, refresh AKE) every 20-byte key in an old-MAC-keys field is attributed to a key pair of the discloser (all pairs of all sessions are known because the harness owns the randomness) and must lie outside the discloser's acceptance window at that moment; "
+      "after a flush every receiving MAC key that verified a message and whose pair is retired must have appeared in some old-MAC-keys field.",
+      "trusted: refotr key schedule and ratchet model; disclosure at End is not demanded by the statement",
+      "DESIGN.md section 5 C09")
+
 _todo = "check not built yet in this session (see DESIGN.md section 12 build order)"
-for pid in ["C01", "C03", "C09", "C11", "C12", "C13", "C14", "C15", "C16", "C18", "C19", "C20"]:
+for pid in ["C01", "C03", "C11", "C12", "C13", "C14", "C15", "C16", "C18", "C19", "C20"]:
     NA[pid] = _todo
 NA["C17"] = ("pure function of one input (parse(serialise(x)) = x): no schedule, clock, fault, peer or history for a simulator to vary; "
              "deterministic simulation does not apply (DESIGN.md section 5 C17)")
